@@ -15,8 +15,12 @@ func plainJSON(v any, depth int) bool {
 		return true
 	}
 	switch x := v.(type) {
-	case nil, bool, string, json.Number, int64, float64, decimal128.Decimal:
+	case nil, bool, string, json.Number, int64:
 		return true
+	case float64:
+		return x == x && x-x == 0 // finite: NaN and infinities cannot be serialised
+	case decimal128.Decimal:
+		return !x.IsNaN() && !x.IsInf(0)
 	case []any:
 		for _, e := range x {
 			if !plainJSON(e, depth+1) {
@@ -38,10 +42,11 @@ func plainJSON(v any, depth int) bool {
 var c18E1 = []string{
 	"a", "a[*].b", "a[0]", "[a, b]", "{x: a, y: b}", "a[?b]", "a[]", "a.*", "a[1:]", "length(a)", "keys(a)", "values(a)", "sort(a)", "reverse(a)",
 	"to_array(a)", "a + b", "-a", "abs(a)", "sum(a)", "avg(a)", "max(a)", "items(a)", "merge(a, b)", "zip(a, b)", "split(a, b)", "type(a)", "to_number(a)",
+	"missing", "a.missing", "a[5]", "`null`", "a / b", "a * b", "`1e4000` / a", "a / `1e-6000`", "sum([a, `9e6144`, `9e6144`])",
 	"find_first(a, b)", "ceil(a)", "not_null(a, b)", "map(&b, a)", "group_by(a, &b)", "from_items(a)", "a == b", "a < b", "!a", "a && b", "join(b, a)", "pad_left(a, `3`)",
 }
 
-var c18E2 = []string{"@", "[0]", "a", "*", "[*]", "length(@)", "type(@)", "[?@]", "x", "[]", "to_array(@)", "keys(@)", "@ == `1`", "[@, @]", "sum(@)", "sort(@)", "x.a"}
+var c18E2 = []string{"a.type(@)", "(a | [@])", "a.not_null(@, 'd')", "[0].to_string(@)", "a[0].to_array(@)", "a.length(@)", "(a | {v: @})", "a.b.type(@)", "@", "[0]", "a", "*", "[*]", "length(@)", "type(@)", "[?@]", "x", "[]", "to_array(@)", "keys(@)", "@ == `1`", "[@, @]", "sum(@)", "sort(@)", "x.a"}
 
 // H_C18_types: every result consists of plain JSON values only.
 func H_C18_types() {
